@@ -323,8 +323,60 @@ def _work(job):
     return dict(n=n, viol=out, slow=slow_total, name=name, sample=sample)
 
 
+# ---- C07 in real-time mode: promises vs. external events of ancestors ---------------------------
+def c07_jobs(tier):
+    return [(n, sc, al) for n, sc, al in event_scenarios(tier) if sc.get("rt_factor") and sc["conns"]]
+
+
+def _c07_work(job):
+    name, scen, alphabet = job
+    out = []
+    n = 0
+    try:
+        for choices, (run, res, viol, lats) in all_executions(
+                lambda ch: execute(scen, False, ch, alphabet), max_exec=20000):
+            n += 1
+            for v in viol:
+                if v["prop"] == "C07" and v["kind"] in ("promise-broken", "exceeds-until"):
+                    v = dict(v, msg=f"{name} lat={lats}: {v['msg']}",
+                             case=dict(name=name, scen=scen, strict=False, choices=choices,
+                                       alphabet=alphabet, c07=True))
+                    out.append(v)
+    except Exception as e:  # noqa: BLE001
+        import traceback
+        return dict(error=repr(e)[:200] + traceback.format_exc()[-800:], name=name)
+    return dict(n=n, viol=out, name=name)
+
+
+def c07_check(rep, tier):
+    """run the real-time scenarios with external events under the C07 monitor; returns
+    (executions, error-or-None)"""
+    nproc = int(os.environ.get("VERIF_PROCS", "16"))
+    total = 0
+    seen = {}
+    with mp.get_context("fork").Pool(nproc) as pool:
+        for res in pool.imap_unordered(_c07_work, c07_jobs(tier), chunksize=2):
+            if res.get("error"):
+                return total, f"{res['name']}: {res['error']}"
+            total += res["n"]
+            for v in res["viol"]:
+                k = (v["kind"], v.get("cls"))
+                seen[k] = seen.get(k, 0) + 1
+                if seen[k] <= 5 or v.get("cls"):
+                    rep.report(v, dict(kind="call", module="mc.rt", case=v["case"]))
+    return total, None
+
+
 def replay(doc):
     c = doc["case"]
+    if c.get("c07"):
+        run, res, viol, lats = execute(c["scen"], False, Chooser(c["choices"]), c["alphabet"])
+        for ev, at in zip(run.trace, run.times):
+            print(f"   {at:8.4f}", ev)
+        hits = [v for v in viol if v["prop"] == "C07" and v["kind"] in ("promise-broken", "exceeds-until")]
+        for v in hits:
+            print(f"REPRODUCED property=C07 kind={v['kind']} cls={v.get('cls')}: {v['msg'][:300]}")
+        return 1 if hits else 0
     run, res, viol, lats = execute(c["scen"], c["strict"], Chooser(c["choices"]), c["alphabet"])
     vs, _ = judge(c["scen"], c["strict"], run, res, viol, lats)
     if not c["strict"] and c["scen"].get("rt_factor"):
@@ -375,8 +427,7 @@ def check(prop, tier):
                     "latency alphabet {instant, 0.5f, 1.5f, 2.5f} awaited, {0.5f, 1.5f, 2.5f} blocking the "
                     "event loop; events on a grid of f/2",
                     "only future events (t greater than the current real-time step index) are injected",
-                    "external events only for simulators outside groups (set_event addresses plain "
-                    "integer times)"],
+                    "external events for simulators outside and inside groups"],
                    time.time() - t0, len(rep.violations))
     print(f"C17 {tier}: scenarios={len(jobs)} executions={total} violations={len(rep.violations)} "
           f"known={sum(v[1] for v in rep.known_hits.values())} wall={time.time() - t0:.1f}s")
